@@ -352,6 +352,8 @@ class Translator:
                     else:
                         raise Unsupported(m.where, e, f'missing argument {pn} without default')
                 return '(' + ' '.join([f] + out) + ')' if out else f
+            if f in getattr(self, 'skipped_private', {}):
+                raise Unsupported(m.where, e, f'call of the private helper {f}, which is outside the subset ({self.skipped_private[f]})')
             raise Unsupported(m.where, e, f'unknown method {ast.unparse(e.func)}')
         raise Unsupported(m.where, e, 'proof expression outside the subset')
 
@@ -464,6 +466,9 @@ class Translator:
                     emit_hoists(hoist)
                     if ex[1] == 2:
                         lines.append(f"bindc ({ex[0]} {ex[2]}) (fun '({pname(names[0])}, {pname(names[1])}) =>")
+                    elif ex[1] == 1 and isinstance(target, ast.Tuple):
+                        # `(p,) = N.assert_matches(x)` is `p = N.assert_matches(x)[0]` (the notation has arity 1)
+                        lines.append(f'bindc ({ex[0]} {ex[2]}) (fun {pname(names[0])} =>')
                     else:
                         # `(a,) = N.assert_matches(..)` is not in the library; a 1-tuple result bound to a name
                         raise Unsupported(m.where, s, 'whole 1-tuple of assert_matches bound to a name')
@@ -581,6 +586,7 @@ def translate(repo_src, extra_path):
     methods, order = {}, []
     class_parent, cls_nodes, cls_src = {}, {}, {}
     cls_file, module_names, submodules = {}, {}, {}
+    decorated_private = {}
     for cls, rel, parent in SOURCES:
         path = os.path.join(repo_src, 'proof_generation', rel)
         text = open(path).read()
@@ -609,10 +615,13 @@ def translate(repo_src, extra_path):
                 submodules[cls][st.targets[0].attr] = a.func.id
         for n in node.body:
             if isinstance(n, ast.FunctionDef):
-                if n.decorator_list:
-                    raise Unsupported(f'{cls}.{n.name}', n, 'decorated method')
                 if n.name == '__init__':
                     continue
+                if n.decorator_list:
+                    if n.name.startswith('_'):
+                        decorated_private[n.name] = f'{cls}.{n.name}: decorated ({ast.unparse(n.decorator_list[0])})'
+                        continue
+                    raise Unsupported(f'{cls}.{n.name}', n, 'decorated method')
                 if n.name in methods:
                     raise Unsupported(f'{cls}.{n.name}', n, 'method defined twice / overridden')
                 mt = Method(cls, n, text)
@@ -630,12 +639,13 @@ def translate(repo_src, extra_path):
                        "        if p != MetaVar(i):\n            ret[i] = p\n    return ret")
     if bs is None:
         raise Unsupported('propositional.py', ptree, '_build_subst not found')
-    if ast.unparse(strip_annotations(bs)) != BUILD_SUBST_REF:
+    BUILD_SUBST_REF2 = ("def _build_subst(pats):\n    return {i: p for i, p in enumerate(pats) if p != MetaVar(i)}")
+    if ast.unparse(strip_annotations(bs)) not in (BUILD_SUBST_REF, BUILD_SUBST_REF2):
         raise Unsupported('propositional._build_subst', bs, 'helper differs from the modelled text (Lib/Term.v build_subst)')
 
     # Private methods (leading underscore) advertise nothing: they are helpers.  A private method that is outside
     # the subset is skipped (it can only matter if a translated method calls it: that call then aborts).
-    skipped_private = {}
+    skipped_private = dict(decorated_private)
     translated = []
     for n in order:
         if n in ALGORITHMIC:
@@ -935,6 +945,9 @@ def strip_annotations(fn):
     fn.returns = None
     for a in fn.args.args:
         a.annotation = None
+    if fn.body and isinstance(fn.body[0], ast.Expr) and isinstance(fn.body[0].value, ast.Constant) \
+            and isinstance(fn.body[0].value.value, str) and len(fn.body) > 1:
+        fn.body = fn.body[1:]          # docstring
     return fn
 
 
